@@ -23,6 +23,9 @@ C04 filt 0|1 Dre Dim xre xim -> ok re=[…] im=[…]: the `FourierFilter._operat
                       D centred, row-major My·Mx; x row-major ny·nx
 C04 filtp 0|1 Dre Dim xre xim -> ok out=c:t,c:t;…: the same pipeline on formal phase sums (`filtOpP`), any internal size with
                       My·Mx ≤ 64: per output pixel (row-major, `;`-separated) the terms `c·exp(2πi t)` as `c:t`
+C04 filtmp n 0|1 Dre Dim xre xim -> ok out=…: the pipeline with an n×n matrix transfer function on a vector field (`filtMOpP`:
+                      `filterMP` / `filterMPBackward`) on formal phase sums; D index (i·n+j)·My·Mx + pixel, x index t·ny·nx + pixel;
+                      n²·My·Mx ≤ 256; output as `filtp`, index t·ny·nx + pixel
 C04 ir jy         -> ok amp=… turns=[…] (fresnel) | ok r2=[…] (angular): impulse response on row jy of the
                       enlarged grid, for jx = 0..Mx-1 and all s² dithers (x dither fastest)
 ```
@@ -145,6 +148,18 @@ def step (st : St) : List String → St × String
       (st, "ok out=" ++ ";".intercalate (r.map fun s => ",".intercalate (s.terms.map showT)))
     | none, some _, some _, some _, some _, some _ => (st, "err value")
     | _, _, _, _, _, _ => (st, "bad-op")
+  | ["filtmp", n, back, dre, dim, xre, xim] =>
+    match st.p, parseNat? n, parseNat? back, parseRatList? dre, parseRatList? dim, parseRatList? xre, parseRatList? xim with
+    | some p, some n, some back, some dre, some dim, some xre, some xim =>
+      if back > 1 || n = 0 || n * n * (my p * mx p) > 256 || !(padOK p) || dre.length ≠ n * n * (my p * mx p) || dim.length ≠ dre.length
+          || xre.length ≠ n * (p.ny * p.nx) || xim.length ≠ xre.length then (st, "err value") else
+      let D := (dre.zip dim).map fun (a, b) => (⟨a, b⟩ : GRat)
+      let x := (xre.zip xim).map fun (a, b) => (⟨a, b⟩ : GRat)
+      let r := filtMOpP p n (back == 1) D x
+      let showT := fun (t : Fft.Term) => if t.r == 0 then s!"{showRat t.c}:{showRat t.t}" else "?"
+      (st, "ok out=" ++ ";".intercalate (r.map fun s => ",".intercalate (s.terms.map showT)))
+    | none, some _, some _, some _, some _, some _, some _ => (st, "err value")
+    | _, _, _, _, _, _, _ => (st, "bad-op")
   | ["ir", jy] =>
     match st.p, parseNat? jy with
     | some p, some jy =>
